@@ -690,6 +690,92 @@ func c10R2(c *Check, sr *storeRoles) {
 			c.Obl(has, "C10.R2", "redis-created-write/"+wn, P.Pos(fn.Pos()), wn+" records time_added with HSETNX", wn+" no longer records the creation time (time_added) with HSETNX")
 		}
 	}
+	// … on every path: a setter that can succeed without having executed the HSETNX (a cache of "already
+	// stamped" ids, a flag) leaves a re-created hash without creation time
+	var passesStamp func(h *ssa.Function, depth int) bool
+	isStamp := func(ci ssa.CallInstruction) bool {
+		ce := calleeOf(ci)
+		if ce.Obj == nil || ce.Obj.Name() != "HSetNX" {
+			return false
+		}
+		for _, a := range callArgs(ci) {
+			if s2, isC := constString(a); isC && s2 == "time_added" {
+				return true
+			}
+		}
+		return false
+	}
+	passesStamp = func(h *ssa.Function, depth int) bool {
+		if h == nil || h.Blocks == nil || depth == 0 {
+			return false
+		}
+		pred := func(i ssa.Instruction) bool {
+			ci, ok := i.(ssa.CallInstruction)
+			if !ok {
+				return false
+			}
+			if isStamp(ci) {
+				return true
+			}
+			if g := ci.Common().StaticCallee(); g != nil && g != h && recvNamed(g) == sr.Redis && g != sr.RefreshExp {
+				return passesStamp(g, depth-1)
+			}
+			return false
+		}
+		any := false
+		for _, r := range returnsOf(h) {
+			if len(r.Results) > 0 {
+				errV := r.Results[len(r.Results)-1]
+				mayBeNil := false
+				for _, l := range Leaves(errV, leafOpts{noConcat: true}) {
+					if isNilConst(l) {
+						mayBeNil = true
+					}
+					if cl, _, isC := asCall(l); isC && (cl.Common().StaticCallee() == sr.RefreshExp || (cl.Common().StaticCallee() != nil && recvNamed(cl.Common().StaticCallee()) == sr.Redis)) {
+						mayBeNil = true
+					}
+				}
+				if !mayBeNil {
+					continue
+				}
+			}
+			any = true
+			if !mustPassBefore(h, r, pred) {
+				return false
+			}
+		}
+		return any
+	}
+	for _, wn := range []string{"SetTokenResponse", "SetAuthorizationState"} {
+		for _, fn := range sr.redisMethods {
+			if fn.Name() != wn || fn.Parent() != nil {
+				continue
+			}
+			c.Obl(passesStamp(fn, 3), "C10.R2", "redis-created-write-on-every-path/"+wn, P.Pos(fn.Pos()), "every successful return of "+wn+" has executed HSETNX time_added",
+				wn+" can succeed without executing HSETNX time_added (conditional stamping): a session re-created after removal or expiry has no creation time")
+		}
+	}
+	// the creation time is never deleted on its own (only with the whole key)
+	for _, fn := range sr.redisMethods {
+		for _, ci := range allCalls(fn) {
+			ce := calleeOf(ci)
+			if ce.Obj == nil || ce.Obj.Name() != "HDel" || !strings.HasPrefix(funcID(ce.Obj), "github.com/redis/go-redis/v9.") {
+				continue
+			}
+			keys := constStringArgs(ci, 2)
+			for _, a := range callArgs(ci)[2:] {
+				keys = append(keys, globalSliceStrings(P, resolveCell(stripConv(a)))...)
+			}
+			del := false
+			for _, k := range keys {
+				if k == "time_added" {
+					del = true
+				}
+			}
+			c.Obl(!del, "C10.R2", "redis-created-not-deleted/"+nthCallKey(ci), P.Pos(ci.Pos()), "HDEL does not name time_added",
+				"HDEL removes time_added from a live session: the next HSETNX stamps a new creation time and the absolute limit starts again")
+		}
+	}
 	c.Obl(nx >= 1, "C10.R2", "redis-created-write/count", "-", fmt.Sprintf("%d write sites of time_added", nx),
 		fmt.Sprintf("only %d write sites of time_added found", nx))
 }
@@ -904,6 +990,21 @@ func c10R4(c *Check, sr *storeRoles) {
 	for _, ctor := range []*ssa.Function{sr.NewMem, sr.NewRed} {
 		sites := callsToFn(pre, ctor)
 		c.Obl(len(sites) >= 1, "C10.R4", "ctor-called/"+ctor.Name(), P.Pos(pre.Pos()), ctor.Name()+" is called from PreRun", ctor.Name()+" is not called from the factory's PreRun")
+		// … and only from there: the configuration is loaded by an earlier PreRun unit; a store built before
+		// that (in a constructor, at package initialisation) gets the timeouts of an empty configuration
+		for _, site := range P.CallersOf(ctor) {
+			caller := site.Parent()
+			for caller.Parent() != nil {
+				caller = caller.Parent()
+			}
+			okCaller := caller == pre
+			if !okCaller {
+				// a helper whose every (transitive) caller is PreRun
+				okCaller = onlyReachedFrom(P, caller, pre, 3)
+			}
+			c.Obl(okCaller, "C10.R4", "ctor-only-in-prerun/"+ctor.Name()+"/"+fnKey(caller), P.Pos(site.Pos()), ctor.Name()+" is called in the factory's PreRun (after the configuration was loaded)",
+				ctor.Name()+" is called from "+fnKey(caller)+", which can run before the configuration is loaded: the store would be built with the timeouts of an empty configuration")
+		}
 		for _, site := range sites {
 			for i, p := range ctor.Params {
 				role := roleOfParam(p.Name())
@@ -1050,4 +1151,60 @@ func helperPassesRefresher(h, ref *ssa.Function) bool {
 		}
 	}
 	return true
+}
+
+// onlyReachedFrom: fn has callers and every chain of callers leads to root within depth steps.
+func onlyReachedFrom(P *Program, fn, root *ssa.Function, depth int) bool {
+	if fn == root {
+		return true
+	}
+	if depth == 0 {
+		return false
+	}
+	callers := P.CallersOf(fn)
+	if len(callers) == 0 {
+		return false
+	}
+	for _, s := range callers {
+		cf := s.Parent()
+		for cf.Parent() != nil {
+			cf = cf.Parent()
+		}
+		if !onlyReachedFrom(P, cf, root, depth-1) {
+			return false
+		}
+	}
+	return true
+}
+
+// globalSliceStrings: v is the load of a package-level []string variable initialised with a literal; its
+// constant elements.
+func globalSliceStrings(P *Program, v ssa.Value) []string {
+	u, ok := v.(*ssa.UnOp)
+	if !ok || u.Op != token.MUL {
+		return nil
+	}
+	g, ok := u.X.(*ssa.Global)
+	if !ok || g.Pkg == nil {
+		return nil
+	}
+	init := g.Pkg.Func("init")
+	if init == nil {
+		return nil
+	}
+	var out []string
+	for _, b := range init.Blocks {
+		for _, ins := range b.Instrs {
+			if st, isSt := ins.(*ssa.Store); isSt && st.Addr == ssa.Value(g) {
+				if elems, isLit := sliceLitElems(st.Val); isLit {
+					for _, e := range elems {
+						if s, isC := constString(e); isC {
+							out = append(out, s)
+						}
+					}
+				}
+			}
+		}
+	}
+	return out
 }
